@@ -160,6 +160,29 @@ fn show_whnf(v: &NickelValue) -> String {
     }
 }
 
+/// The result of `eval_record_spine`: records are followed, leaves are weak head normal forms; a
+/// leaf that was skipped because its thunk was found locked shows up as `<thunk>`.
+fn show_spine(v: &NickelValue) -> String {
+    match v.content_ref() {
+        ValueContentRef::Record(Container::Alloc(r)) => {
+            let mut entries: Vec<(String, String)> = r
+                .fields
+                .iter()
+                .map(|(k, f)| {
+                    (k.label().to_owned(), f.value.as_ref().map(show_spine).unwrap_or_else(|| "<nodef>".into()))
+                })
+                .collect();
+            entries.sort();
+            let parts: Vec<String> = entries.iter().map(|(k, v)| format!("{k}:{v}")).collect();
+            format!("{{{}}}", parts.join(","))
+        }
+        ValueContentRef::Thunk(_) => "<thunk>".into(),
+        ValueContentRef::Term(Term::Fun(..)) => "<fun>".into(),
+        ValueContentRef::Term(_) => "<term>".into(),
+        _ => show_whnf(v),
+    }
+}
+
 fn show_full(v: &NickelValue) -> String {
     match show_value(v, false, false) {
         Ok(s) => s,
@@ -187,6 +210,7 @@ enum Mode {
     Whnf,
     Full,
     Query,
+    Spine,
 }
 
 struct Oracle {
@@ -234,6 +258,10 @@ impl Oracle {
                 },
                 Mode::Full => match prog.eval_full() {
                     Ok(v) => format!("OK {}", show_full(&v)),
+                    Err(e) => err_line(&e),
+                },
+                Mode::Spine => match prog.eval_record_spine() {
+                    Ok(v) => format!("OK {}", show_spine(&v)),
                     Err(e) => err_line(&e),
                 },
                 Mode::Query => match prog.query() {
@@ -402,7 +430,7 @@ fn run_program_history(line: &str, oracle: &mut Oracle) -> String {
             verif_hooks::set_fuel(k);
             let res = match head {
                 "full" => prog.eval_full().map(|v| format!("OK {}", show_full(&v))),
-                "spine" => prog.eval_record_spine().map(|v| format!("OK {}", show_whnf(&v))),
+                "spine" => prog.eval_record_spine().map(|v| format!("OK {}", show_spine(&v))),
                 _ => prog.eval().map(|v| format!("OK {}", show_whnf(&v))),
             };
             verif_hooks::set_fuel(u64::MAX);
@@ -414,7 +442,7 @@ fn run_program_history(line: &str, oracle: &mut Oracle) -> String {
         sess.push(r);
         orac.push(match head {
             "full" => oracle.eval(Mode::Full, &src, ""),
-            "spine" => "-".into(),
+            "spine" => oracle.eval(Mode::Spine, &src, ""),
             _ => oracle.eval(Mode::Whnf, &src, ""),
         });
     }
